@@ -18,7 +18,7 @@ RULE = ("every registry function (%d public entry points) x argument tuples draw
         "AddressSanitizer build, where an out-of-bounds access that does not crash is reported. Every call runs in an "
         "isolated worker with a wall-clock limit and RLIMIT_AS; the outcome must be a result or a Python exception and the worker "
         "must stay usable (it goes on to serve the following requests); a signal, abort, sanitizer-free heap corruption message or "
-        "timeout is a violation with the call as replay. Non-trivial: the call raised or returned (all do)" % len(R.REG))
+        "timeout is a violation with the call as replay. Non-trivial: the call raised or returned (all do) Output-buffer family: every function with out=/output= x {one rank fewer / more, 0-d, empty, too small, too large, read-only on an immutable bytes object, list, str} x several dtypes; a write through the read-only buffer is a violation." % len(R.REG))
 NOT_PROVED = ["crash-freedom of the compiled code is observed, not proved; the Coq theorems state that the argument guards of the native "
               "entry points (re-translated from the C++ sources) contain the checks the kernels rely on"]
 BUDGET_S = {"quick": 500, "thorough": 3000}
